@@ -85,6 +85,12 @@ class Lower:
                 return a * b
             if op == "/":
                 return a / b
+            if op == "<<":
+                return a * sp.Integer(2) ** b
+            if op == ">>":
+                return sp.floor(a / sp.Integer(2) ** b)
+            if op == "%":
+                return sp.Mod(a, b)
             if op in ("<", ">", "<=", ">=", "==", "!="):
                 return {"<": sp.Lt, ">": sp.Gt, "<=": sp.Le, ">=": sp.Ge, "==": sp.Eq, "!=": sp.Ne}[op](a, b)
             if op == "&&":
